@@ -570,6 +570,8 @@ pub enum Container {
     Array1,
     /// simulator-owned implementation of the library's Vec1 trait
     Sim,
+    /// simulator-owned container that inherits every default method of Vec1
+    Plain,
     Polars,
 }
 
@@ -580,6 +582,7 @@ impl Container {
             Container::Deque => "deque",
             Container::Array1 => "array1",
             Container::Sim => "sim",
+            Container::Plain => "plain",
             Container::Polars => "polars",
         }
     }
@@ -589,6 +592,7 @@ impl Container {
             "deque" => Container::Deque,
             "array1" => Container::Array1,
             "sim" => Container::Sim,
+            "plain" => Container::Plain,
             "polars" => Container::Polars,
             _ => return Err(format!("bad container {s}")),
         })
@@ -680,7 +684,7 @@ impl Sink {
     pub fn trusts_hint(&self) -> bool {
         match self {
             Sink::TrustedToVec | Sink::TryTrustedToVec => true,
-            Sink::TrustedVec1(c) | Sink::TryTrusted(c) | Sink::WithLen(c) => *c != Container::Sim,
+            Sink::TrustedVec1(c) | Sink::TryTrusted(c) | Sink::WithLen(c) => !matches!(c, Container::Sim | Container::Plain),
             _ => false,
         }
     }
@@ -873,11 +877,13 @@ pub enum Program {
     Pipe(Pipe),
     Gen(Gen),
     Roll(Roll),
+    Typed(crate::typed::Typed),
 }
 
 impl Program {
     pub fn to_j(&self) -> J {
         match self {
+            Program::Typed(t) => t.to_j(),
             Program::Pipe(p) => J::obj(vec![
                 ("kind", J::s("pipe")),
                 ("ty", J::s(p.ty.name())),
@@ -980,6 +986,7 @@ impl Program {
                 other_delta: j.get("other_delta").map(|v| v.as_i64()).transpose()?.unwrap_or(0),
                 out: Container::parse(j.req("out")?.as_str()?)?,
             })),
+            "typed" => Ok(Program::Typed(crate::typed::Typed::from_j(j)?)),
             _ => Err(format!("bad program kind {kind}")),
         }
     }
